@@ -8,6 +8,7 @@ import (
 	"os"
 	"path/filepath"
 	"runtime"
+	"sort"
 	"strings"
 	"sync"
 
@@ -36,6 +37,8 @@ type sUniverse struct {
 	Pkgs     map[string][]string `json:"packages"` // name -> versions in the order the client lists them
 	Deps     map[string]string   `json:"manifest"` // direct requirements of the root
 	Vulns    []sVuln             `json:"vulns"`
+	// PkgDeps: package -> version -> dependency -> requirement (empty for the flat universes)
+	PkgDeps map[string]map[string]map[string]string `json:"deps,omitempty"`
 }
 
 type sVuln struct {
@@ -185,6 +188,14 @@ func (u *sUniverse) schemaText() string {
 		sb.WriteString(name + "\n")
 		for _, v := range vers {
 			sb.WriteString("\t" + v + "\n")
+			var dn []string
+			for d := range u.PkgDeps[name][v] {
+				dn = append(dn, d)
+			}
+			sort.Strings(dn)
+			for _, d := range dn {
+				sb.WriteString("\t\t" + d + "@" + u.PkgDeps[name][v][d] + "\n")
+			}
 		}
 	}
 	return sb.String()
@@ -211,79 +222,184 @@ func (u *sUniverse) manifestFile(dir string) (string, error) {
 }
 
 type sResult struct {
-	Universe   sUniverse `json:"universe"`
-	Err        string    `json:"err,omitempty"`
-	BaseVulns  []string  `json:"base_vulns"`
-	Patches    int       `json:"patches"`
-	Handed     int       `json:"shared_slices_handed_out"`
-	Modified   []string  `json:"client_state_modified,omitempty"`
-	PatchedTo  []string  `json:"patched_to"`
-	Concurrent int       `json:"concurrent_attempts"`
+	Universe  sUniverse `json:"universe"`
+	Err       string    `json:"err,omitempty"`
+	BaseVulns []string  `json:"base_vulns"`
+	Patches   int       `json:"patches"`
+	Handed    int       `json:"shared_slices_handed_out"`
+	Modified  []string  `json:"client_state_modified,omitempty"`
+	PatchedTo []string  `json:"patched_to"`
+	// RunPatches: the patches (updated names and target versions) of each of the repeated ComputePatches runs;
+	// Reference: what the attempt for each initial vulnerability yields alone on a freshly resolved manifest;
+	// Inconsistent: differences between runs, or a reference patch missing from a run
+	RunPatches   [][]string `json:"run_patches"`
+	Reference    []string   `json:"reference"`
+	Inconsistent []string   `json:"inconsistent,omitempty"`
+	Concurrent   int        `json:"concurrent_attempts"`
 }
 
-func runStrategy(u sUniverse) sResult {
-	res := sResult{Universe: u}
+type sSetup struct {
+	cl       *sharedClient
+	vm       sMatcher
+	resolved *guidedremediation.VerifC11Resolved
+	ro       options.RemediationOptions
+	dir      string
+}
+
+// setupStrategy builds everything afresh: client, matcher, manifest, resolved manifest (graph and subgraphs).
+func setupStrategy(u sUniverse) (*sSetup, error) {
 	sys := u.system()
 	sch, err := schema.New(u.schemaText(), sys)
 	if err != nil {
-		res.Err = "schema: " + err.Error()
-		return res
+		return nil, fmt.Errorf("schema: %w", err)
 	}
-	cl := &sharedClient{inner: sch.NewClient(), shared: map[resolve.PackageKey][]resolve.Version{},
+	st := &sSetup{}
+	st.cl = &sharedClient{inner: sch.NewClient(), shared: map[resolve.PackageKey][]resolve.Version{},
 		orig: map[resolve.PackageKey][]resolve.Version{}, order: u.Pkgs, handed: map[resolve.PackageKey]int{}}
 	eco := "Maven"
 	if u.Sys == "npm" {
 		eco = "npm"
 	}
-	var vm sMatcher
 	for _, v := range u.Vulns {
-		vm.vulns = append(vm.vulns, &osvschema.Vulnerability{ID: v.ID, Affected: []osvschema.Affected{{
+		st.vm.vulns = append(st.vm.vulns, &osvschema.Vulnerability{ID: v.ID, Affected: []osvschema.Affected{{
 			Package: osvschema.Package{Ecosystem: eco, Name: v.Pkg},
 			Ranges:  []osvschema.Range{{Type: osvschema.RangeEcosystem, Events: []osvschema.Event{{Introduced: "0"}, {Fixed: v.Fixed}}}}}}})
 	}
-	dir, _ := os.MkdirTemp("", "c16strategy")
-	defer os.RemoveAll(dir)
-	path, err := u.manifestFile(dir)
+	st.dir, _ = os.MkdirTemp("", "c16strategy")
+	path, err := u.manifestFile(st.dir)
 	if err != nil {
-		res.Err = err.Error()
-		return res
+		return nil, err
 	}
 	m, err := guidedremediation.VerifC11ReadManifest(path, "")
 	if err != nil {
-		res.Err = "read manifest: " + err.Error()
-		return res
+		return nil, fmt.Errorf("read manifest: %w", err)
 	}
+	st.ro = options.DefaultRemediationOptions()
+	st.resolved, err = guidedremediation.VerifC11ResolveManifest(context.Background(), st.cl, st.vm, m, &st.ro)
+	if err != nil {
+		return nil, fmt.Errorf("resolve: %w", err)
+	}
+	return st, nil
+}
+
+// patchKey: what Patch.Compare can tell apart besides the counts: updated names and target versions.
+func patchKey(p result.Patch) string {
+	var us []string
+	for _, pu := range p.PackageUpdates {
+		us = append(us, pu.Name+"@"+pu.VersionTo)
+	}
+	return strings.Join(us, "+")
+}
+
+const strategyRuns = 4
+
+func runStrategy(u sUniverse) sResult {
+	res := sResult{Universe: u}
 	ctx := context.Background()
-	ro := options.DefaultRemediationOptions()
-	resolved, err := guidedremediation.VerifC11ResolveManifest(ctx, cl, vm, m, &ro)
-	if err != nil {
-		res.Err = "resolve: " + err.Error()
-		return res
+	var baseIDs []string
+	for run := 0; run < strategyRuns; run++ {
+		st, err := setupStrategy(u)
+		if err != nil {
+			res.Err = err.Error()
+			return res
+		}
+		if run == 0 {
+			for _, v := range st.resolved.Vulns {
+				res.BaseVulns = append(res.BaseVulns, v.OSV.ID)
+			}
+			sort.Strings(res.BaseVulns)
+			baseIDs = res.BaseVulns
+			res.Concurrent = len(st.resolved.Vulns)
+		}
+		var patches []result.Patch
+		if u.Strategy == "relax" {
+			patches, err = guidedremediation.VerifC11RelaxComputePatches(ctx, st.cl, st.vm, st.resolved, &st.ro)
+		} else {
+			patches, err = guidedremediation.VerifC11OverrideComputePatches(ctx, st.cl, st.vm, st.resolved, &st.ro)
+		}
+		if err != nil {
+			res.Err = "compute patches: " + err.Error()
+		}
+		var keys []string
+		for _, p := range patches {
+			keys = append(keys, patchKey(p))
+		}
+		res.RunPatches = append(res.RunPatches, keys)
+		if run == 0 {
+			res.Patches = len(patches)
+			res.PatchedTo = keys
+		}
+		for _, n := range st.cl.handed {
+			res.Handed += n
+		}
+		res.Modified = append(res.Modified, st.cl.modified()...)
+		os.RemoveAll(st.dir)
 	}
-	for _, v := range resolved.Vulns {
-		res.BaseVulns = append(res.BaseVulns, v.OSV.ID)
-	}
-	res.Concurrent = len(resolved.Vulns)
-	var patches []result.Patch
-	if u.Strategy == "relax" {
-		patches, err = guidedremediation.VerifC11RelaxComputePatches(ctx, cl, vm, resolved, &ro)
-	} else {
-		patches, err = guidedremediation.VerifC11OverrideComputePatches(ctx, cl, vm, resolved, &ro)
-	}
-	if err != nil {
-		res.Err = "compute patches: " + err.Error()
-	}
-	res.Patches = len(patches)
-	for _, p := range patches {
-		for _, pu := range p.PackageUpdates {
-			res.PatchedTo = append(res.PatchedTo, pu.Name+"@"+pu.VersionTo)
+	// reference: every attempt for one initial vulnerability, alone, on a freshly resolved manifest
+	for _, id := range baseIDs {
+		st, err := setupStrategy(u)
+		if err != nil {
+			res.Err = err.Error()
+			return res
+		}
+		var nr *guidedremediation.VerifC11Resolved
+		if u.Strategy == "relax" {
+			nr, err = guidedremediation.VerifC11RelaxPatchVulns(ctx, st.cl, st.vm, st.resolved, []string{id}, &st.ro)
+		} else {
+			nr, err = guidedremediation.VerifC11OverridePatchVulns(ctx, st.cl, st.vm, st.resolved, []string{id}, &st.ro)
+		}
+		os.RemoveAll(st.dir)
+		if err != nil || nr == nil {
+			res.Reference = append(res.Reference, id+": no patch")
+			continue
+		}
+		p := guidedremediation.VerifC11ConstructPatches(st.resolved, nr)
+		if len(p.PackageUpdates) == 0 {
+			res.Reference = append(res.Reference, id+": no change")
+			continue
+		}
+		k := patchKey(p)
+		res.Reference = append(res.Reference, id+": "+k)
+		for run, keys := range res.RunPatches {
+			found := false
+			for _, x := range keys {
+				if x == k {
+					found = true
+				}
+			}
+			if !found {
+				res.Inconsistent = append(res.Inconsistent, fmt.Sprintf("run %d lacks the patch %q that the attempt for %s yields on its own", run, k, id))
+			}
 		}
 	}
-	for _, n := range cl.handed {
-		res.Handed += n
+	for run := 1; run < len(res.RunPatches); run++ {
+		if strings.Join(res.RunPatches[run], " | ") != strings.Join(res.RunPatches[0], " | ") {
+			res.Inconsistent = append(res.Inconsistent, fmt.Sprintf("run %d returned %v, run 0 returned %v", run, res.RunPatches[run], res.RunPatches[0]))
+		}
 	}
-	res.Modified = cl.modified()
 	return res
+}
+
+// diamondUniverses: npm / relax; the vulnerable package vv is required tightly by aa (the constraining path)
+// and loosely by bb (a non-constraining path); two vulnerabilities sit on the one node vv@1.0.0, so two
+// concurrent attempts use the same dependency subgraph.
+func diamondUniverses() []sUniverse {
+	mk := func(fix1, fix2 string, extra bool) sUniverse {
+		u := sUniverse{Sys: "npm", Strategy: "relax",
+			Pkgs: map[string][]string{"aa": {"1.0.0", "2.0.0", "3.0.0"}, "bb": {"1.0.0"}, "vv": {"1.0.0", "2.0.0", "3.0.0"}},
+			Deps: map[string]string{"aa": "^1.0.0", "bb": "^1.0.0"},
+			PkgDeps: map[string]map[string]map[string]string{
+				"aa": {"1.0.0": {"vv": "^1.0.0"}, "2.0.0": {"vv": "^2.0.0"}, "3.0.0": {"vv": "^3.0.0"}},
+				"bb": {"1.0.0": {"vv": "*"}}},
+			Vulns: []sVuln{{"V1", "vv", fix1}, {"V2", "vv", fix2}}}
+		if extra {
+			u.Pkgs["cc"] = []string{"1.0.0", "1.1.0"}
+			u.Deps["cc"] = "1.0.0"
+			u.Vulns = append(u.Vulns, sVuln{"V3", "cc", "1.1.0"})
+		}
+		return u
+	}
+	return []sUniverse{mk("2.0.0", "3.0.0", false), mk("3.0.0", "2.0.0", false), mk("2.0.0", "3.0.0", true)}
 }
 
 // genStrategyUniverses: >= 2 vulnerabilities in one package (so >= 2 concurrent attempts look the same
@@ -338,7 +454,7 @@ func strategyMain(seed int64, tier string, replay string) {
 		if tier == "thorough" {
 			n = 30
 		}
-		us = genStrategyUniverses(seed, n)
+		us = append(diamondUniverses(), genStrategyUniverses(seed, n)...)
 	}
 	for _, u := range us {
 		r := runStrategy(u)
